@@ -465,7 +465,7 @@ pub(crate) mod verif_array {
                     assert!(out.len() == m, "map: result must have exactly one value per element");
                     let mut j = 0;
                     while j < m {
-                        assert!(matches!(&out[j], Value::Number(x) if x.as_u64() == Some(p[j])), "map: result[j] must be the expression's value for element j, in order");
+                        assert!(matches!(&out[j], Value::Number(x) if ev::is_outcome_number(x, xn, p[j])), "map: result[j] must be the expression's value for element j, in order");
                         j += 1;
                     }
                 } else {
@@ -535,7 +535,7 @@ pub(crate) mod verif_array {
         kani::cover!(true, "returned");
         let outer_fp = ev::fingerprint(&data);
         if cmode == C_NULL && init_ok {
-            assert!(matches!(&*r, Ok(Value::Number(x)) if x.as_u64() == Some(iv)), "reduce over a null (= empty) collection is the evaluated initial value");
+            assert!(matches!(&*r, Ok(Value::Number(x)) if ev::is_outcome_number(x, 2, iv)), "reduce over a null (= empty) collection is the evaluated initial value");
         } else {
             assert!(r.is_err(), "reduce: a non-array collection or a failing evaluation is an error");
         }
